@@ -202,7 +202,9 @@ def install_observers(g, obs, target_hi=None, target_lo=None):
         def __getattr__(self, n):
             return getattr(self._real, n)
 
-    if not isinstance(st.rdDescriptors, _Desc) and not hasattr(st.rdDescriptors, "_real"):
+    # (a changed stochastic.py may measure the mass in another way: then there are no mass events and the oracle of C07
+    # falls back on the residue masses it computes itself)
+    if hasattr(st, "rdDescriptors") and not isinstance(st.rdDescriptors, _Desc) and not hasattr(st.rdDescriptors, "_real"):
         st.rdDescriptors = _Desc(st.rdDescriptors)
 
     # draws
